@@ -200,3 +200,15 @@ Theorem C15_collapse_to_base_inner_merges_cell `{Sig} : forall E n ks pe e ne c 
   (forall y, unused w' y = if (y =? e) || (y =? ne) || (y =? q) then true else unused w y).
 Proof. exact halfcell_to_base_inner. Qed.
 Print Assumptions C15_collapse_to_base_inner_merges_cell.
+
+(** ... and the boundary half-cell leaves a well-formed map: every premise is about the well-formed map before the call
+    (the triangle, its two free sides), none about the result.  This is the clause the code before the fix 667f50e
+    broke: it removed the previous edge's dart while that dart still had a 2-neighbour. *)
+Theorem C15_collapse_to_base_boundary_keeps_wf2 `{Sig} : forall E n ks pe e ne c w cnt w' cnt',
+  wf2 n w -> pe < n -> pe <> e -> pe <> ne -> e <> ne -> e <> 0 -> ne <> 0 ->
+  beta w 1 pe = e -> beta w 1 e = ne -> beta w 1 ne = pe ->
+  beta w 2 ne = 0 -> beta w 2 e = 0 ->
+  run E (collapse_halfcell_to_base n ks pe e ne) c w cnt = (Done tt, w', cnt') ->
+  wf2 n w'.
+Proof. exact halfcell_to_base_boundary_wf. Qed.
+Print Assumptions C15_collapse_to_base_boundary_keeps_wf2.
